@@ -71,7 +71,7 @@ def enumerate_lazy(plan, pick):
         for p in frontier:
             q = L.number(L.clone(p))
             for k in kinds:
-                exs = ["m1", "s", "i"] if k in ("tofuture_on", "detach_on") else ["i"]
+                exs = (["m1", "s", "i"] if n == 0 else ["s", "m1"]) if k in ("tofuture_on", "detach_on") else ["i"]
                 for ex in exs:
                     out.append((k, ex, q))
     return out
@@ -116,7 +116,7 @@ def plans(tier):
     """(steps, full head catalogue?, alphabet level, start kinds, heads per value type or None)"""
     if tier == "thorough":
         return [(0, True, 0, KINDS, None), (1, True, 0, FEW, None), (1, False, 2, MID, 8),
-                (2, False, 0, MID, None), (3, False, 0, ["inner", "drop", "await_destroy"], 3)], 20000
+                (2, False, 0, MID, None), (3, False, 0, ["inner", "drop", "await_destroy"], 2)], 20000
     return [(0, True, 0, KINDS, None), (1, False, 1, KINDS, 8), (2, False, 0, FEW, 6)], 3000
 
 
@@ -224,8 +224,7 @@ def main(ck):
             bad.append((line, "harness produced no result (%s)" % "; ".join(errs)[:300]))
             continue
         if row.get("fail"):
-            key = "drop-completed-core" if k == "await_destroy" and row.get("key") in ("crash", "functor-lifetime") else \
-                  "%s:%s" % (k, row.get("key"))
+            key = "drop-completed-core" if k == "await_destroy" else "%s:%s" % (k, row.get("key"))
             ck.hits.append(dict(what="%s [%s]" % (row["fail"], line), key=key,
                                 replay=dict(harness="h_c12", case=line, key=key, observed=row)))
             continue
